@@ -102,4 +102,77 @@ Section PmlLoop.
       rewrite E. clear E EA HF Q. destruct psi as [q1 q2]. cbn [fst snd] in z1, z2. unfold pml_apply. cbn [fst snd]. rewrite Hin. unfold cpml_step.
       destruct isE; cbn [fst snd]; rewrite ?Hk, ?z1, ?z2, ?a1, ?a2; destruct sim; cbn [fst snd]; rewrite ?cscal_c0, ?cscal_0, ?cadd_00; split; reflexivity.
   Qed.
+
+  (* ---- linearity of the CPML loop: inputs (derivatives, accumulators, curl) combined as a*x + b*y give outputs combined the same way ---- *)
+  Section LoopLinear.
+  Variables a b : car K.
+  Definition lc2 (x y : C) : C := cadd (cscal a x) (cscal b y).
+  Definition lcA (x y : A3 K) : A3 K := fun i j k => lc2 (x i j k) (y i j k).
+  Definition lcVl (x y : V3 K) : V3 K := mkV (lcA (vx x) (vx y)) (lcA (vy x) (vy y)) (lcA (vz x) (vz y)).
+  Definition eqA (x y : A3 K) : Prop := forall i j k, x i j k = y i j k.
+  Definition eqV (x y : V3 K) : Prop := eqA (vx x) (vx y) /\ eqA (vy x) (vy y) /\ eqA (vz x) (vz y).
+  Definition eqP (x y : psi_t K) : Prop := eqA (fst x) (fst y) /\ eqA (snd x) (snd y).
+  Definition lcP (x y : psi_t K) : psi_t K := (lcA (fst x) (fst y), lcA (snd x) (snd y)).
+
+  Lemma cpml_step_lin ca cb ik k1 sim d1 d2 p1 p2 :
+    cpml_step K ca cb ik k1 sim (lc2 d1 d2) (lc2 p1 p2) =
+    (lc2 (fst (cpml_step K ca cb ik k1 sim d1 p1)) (fst (cpml_step K ca cb ik k1 sim d2 p2)),
+     lc2 (snd (cpml_step K ca cb ik k1 sim d1 p1)) (snd (cpml_step K ca cb ik k1 sim d2 p2))).
+  Proof.
+    unfold cpml_step. destruct d1, d2, p1, p2. destruct k1, sim; cbn [fst snd]; f_equal; apply c_eq; unfold lc2, cadd, cscal; cbn [fst snd]; ring.
+  Qed.
+
+  Lemma pml_apply_lin isE sim p d1 d2 e1 e2 d1' e1' (ps1 ps2 ps3 : psi_t K) :
+    eqA d1' (lcA d1 d2) -> eqA e1' (lcA e1 e2) -> eqP ps3 (lcP ps1 ps2) ->
+    let r1 := pml_apply K isE sim p d1 e1 ps1 in let r2 := pml_apply K isE sim p d2 e2 ps2 in let r3 := pml_apply K isE sim p d1' e1' ps3 in
+    eqA (fst (fst r3)) (lcA (fst (fst r1)) (fst (fst r2))) /\ eqA (snd (fst r3)) (lcA (snd (fst r1)) (snd (fst r2))) /\
+    eqP (snd r3) (lcP (snd r1) (snd r2)).
+  Proof.
+    intros Hd He [Hp1 Hp2]. cbv zeta. unfold pml_apply; cbn [fst snd].
+    assert (Z: lc2 c0 c0 = c0) by (apply c_eq; unfold lc2, cadd, cscal, Cplx.c0; cbn [fst snd]; ring).
+    repeat split; intros i j k; unfold lcA, lcP; cbn [fst snd]; rewrite ?Hd, ?He, ?Hp1, ?Hp2; unfold lcA; cbn [fst snd];
+      destruct (in_pml K p i j k); rewrite ?Z; try reflexivity;
+      destruct isE; cbv beta iota zeta; unfold lcP, lcA; cbn [fst snd]; rewrite cpml_step_lin; reflexivity.
+  Qed.
+
+  Lemma add_corr_lin ax c1 c2 c3 k1 k2 k3 l1 l2 l3 :
+    eqV c3 (lcVl c1 c2) -> eqA k3 (lcA k1 k2) -> eqA l3 (lcA l1 l2) ->
+    eqV (add_corr K ax c3 k3 l3) (lcVl (add_corr K ax c1 k1 l1) (add_corr K ax c2 k2 l2)).
+  Proof.
+    intros (X & Y & Z) Hk Hl. unfold add_corr. destruct ax as [|[|ax]]; unfold eqV, lcVl, lcA; cbn [vx vy vz];
+      repeat split; intros i j k; rewrite ?X, ?Y, ?Z, ?Hk, ?Hl; unfold lcVl, lcA; cbn [vx vy vz]; try reflexivity;
+      apply c_eq; unfold lcVl, lcA, lc2, cadd, csub, cscal; cbn [fst snd vx vy vz]; ring.
+  Qed.
+
+  Lemma pml_loop_lin isE sim (ds1 ds2 ds3 : nat -> A3 K * A3 K) :
+    (forall n, eqA (fst (ds3 n)) (lcA (fst (ds1 n)) (fst (ds2 n))) /\ eqA (snd (ds3 n)) (lcA (snd (ds1 n)) (snd (ds2 n)))) ->
+    forall ps (q1 q2 q3 : list (psi_t K)) c1 c2 c3,
+    length q1 = length ps -> length q2 = length ps -> length q3 = length ps ->
+    (forall n, n < length ps -> eqP (nth n q3 (fun _ _ _ => c0, fun _ _ _ => c0)) (lcP (nth n q1 (fun _ _ _ => c0, fun _ _ _ => c0)) (nth n q2 (fun _ _ _ => c0, fun _ _ _ => c0)))) ->
+    eqV c3 (lcVl c1 c2) ->
+    let r1 := pml_loop K isE sim ps q1 ds1 c1 in let r2 := pml_loop K isE sim ps q2 ds2 c2 in let r3 := pml_loop K isE sim ps q3 ds3 c3 in
+    eqV (fst r3) (lcVl (fst r1) (fst r2)) /\
+    length (snd r1) = length ps /\ length (snd r2) = length ps /\ length (snd r3) = length ps /\
+    (forall n, n < length ps -> eqP (nth n (snd r3) (fun _ _ _ => c0, fun _ _ _ => c0)) (lcP (nth n (snd r1) (fun _ _ _ => c0, fun _ _ _ => c0)) (nth n (snd r2) (fun _ _ _ => c0, fun _ _ _ => c0)))).
+  Proof.
+    intros Hds. induction ps as [|p ps IH]; intros q1 q2 q3 c1 c2 c3 L1 L2 L3 Hq Hc; cbv zeta.
+    - destruct q1, q2, q3; try discriminate. cbn. split; [exact Hc|]. split; [reflexivity|]. split; [reflexivity|]. split; [reflexivity|]. intros m Hm; inversion Hm.
+    - destruct q1 as [|s1 q1], q2 as [|s2 q2], q3 as [|s3 q3]; try discriminate.
+      injection L1 as L1. injection L2 as L2. injection L3 as L3. cbn [pml_loop].
+      destruct (Hds (p_axis K p)) as [Hd He].
+      destruct (ds1 (p_axis K p)) as [d1 e1]. destruct (ds2 (p_axis K p)) as [d2 e2]. destruct (ds3 (p_axis K p)) as [d3 e3]. cbn [fst snd] in Hd, He.
+      pose proof (pml_apply_lin isE sim p d1 d2 e1 e2 d3 e3 s1 s2 s3 Hd He (Hq O ltac:(cbn; lia))) as (A1 & A2 & A3).
+      destruct (pml_apply K isE sim p d1 e1 s1) as [[k1 l1] s1'].
+      destruct (pml_apply K isE sim p d2 e2 s2) as [[k2 l2] s2'].
+      destruct (pml_apply K isE sim p d3 e3 s3) as [[k3 l3] s3']. cbn [fst snd] in A1, A2, A3.
+      pose proof (add_corr_lin (p_axis K p) c1 c2 c3 k1 k2 k3 l1 l2 l3 Hc A1 A2) as HC.
+      specialize (IH q1 q2 q3 _ _ _ L1 L2 L3 (fun m Hm => Hq (S m) ltac:(cbn; lia)) HC). cbv zeta in IH.
+      destruct (pml_loop K isE sim ps q1 ds1 (add_corr K (p_axis K p) c1 k1 l1)) as [r1 t1].
+      destruct (pml_loop K isE sim ps q2 ds2 (add_corr K (p_axis K p) c2 k2 l2)) as [r2 t2].
+      destruct (pml_loop K isE sim ps q3 ds3 (add_corr K (p_axis K p) c3 k3 l3)) as [r3 t3]. cbn [fst snd] in *.
+      destruct IH as (I1 & I2 & I3 & I4 & I5).
+      split; [exact I1|]. split; [cbn; lia|]. split; [cbn; lia|]. split; [cbn; lia|].
+      intros m Hm. destruct m as [|m]; [exact A3 | apply I5; cbn in Hm; lia].
+  Qed.
+  End LoopLinear.
 End PmlLoop.
